@@ -327,6 +327,8 @@ def resolveImports(sheet, target=None):
         target = css.CSSStyleSheet(
             href=sheet.href, media=sheet.media, title=sheet.title
         )
+        # @import rules that are kept (re)load their target with the sheet's fetcher
+        target._setFetcher(sheet._fetcher)
 
     for rule in sheet.cssRules:
         if rule.type == rule.CHARSET_RULE:
